@@ -254,8 +254,27 @@ class Ctx:
                     todo.append(mod.replace('.', '/') + '.v')
         return seen
 
-    def proof(self, prop_file=None, theorems=None):
-        prop_file = prop_file or 'props/Prop_%s.v' % self.pid
+    def proof(self, prop_file=None, theorems=None, extra=()):
+        """Proof step for the property file, then for each file of `extra` (cross-cutting theorem files such as the
+        translation tie props/Prop_Tie_Sift.v); the counts and lists of all of them are accumulated."""
+        ok = self._proof_one(prop_file or 'props/Prop_%s.v' % self.pid)
+        main = dict(self.proof_info)
+        for f in extra:
+            ok = self._proof_one(f) and ok
+            cur = self.proof_info
+            for k in ('obligations', 'discharged'):
+                cur[k] = main.get(k, 0) + cur.get(k, 0)
+            cur['files'] = main.get('files', []) + [x for x in cur.get('files', []) if x not in main.get('files', [])]
+            cur['theorems'] = main.get('theorems', []) + cur.get('theorems', [])
+            cur['assumptions'] = sorted(set(main.get('assumptions', [])) | set(cur.get('assumptions', [])))
+            cur['checker_cmd'] = main.get('checker_cmd', '') + ' ; the same for ' + f
+            for k in ('coqchk', 'coqchk_axioms'):
+                if k in main and main[k] != 'ok' and k == 'coqchk':
+                    cur[k] = main[k]
+            main = dict(cur)
+        return ok
+
+    def _proof_one(self, prop_file):
         info = self.proof_info
         info['checker_cmd'] = ('make -C coq %s (full .vo build, Coq 8.16.1) ; coqc %s (Print Assumptions)'
                                % (prop_file + 'o', prop_file))
